@@ -15,7 +15,7 @@ save)
   d=/verif/selftest/mutants/$name; mkdir -p $d
   (cd /tmp && diff -ruN --exclude=.git /repo mrepo | sed -e 's#^--- /repo/#--- a/#' -e 's#^+++ mrepo/#+++ b/#' -e 's#^diff -ruN --exclude=.git /repo/\(.*\) mrepo/\(.*\)#diff -ruN a/\1 b/\2#') > $d/patch.diff
   [ -s $d/patch.diff ] || { echo "empty diff"; rm -rf $d; exit 1; }
-  (cd $M && go build ./... ) || { echo "DOES NOT BUILD"; rm -rf $d; exit 1; }
+  (cd $M && go build ./... ) || { echo "DOES NOT BUILD"; rm -rf $d; cd /; rm -rf $M; rsync -a --exclude .git /repo/ $M/; exit 1; }
   if ! $notest; then
     (cd $M && go test -vet=off -count=1 -timeout 90s ./... 2>&1 | grep -v "^ok\|no test files" | head -20)
     (cd $M && go test -vet=off -count=1 -timeout 90s ./... >/dev/null 2>&1) && suite=green || suite=RED
